@@ -309,6 +309,8 @@ int dl_header(CURL *curl, zckDL *dl, char *url, int fail_no_ranges,
 int main (int argc, char *argv[]) {
     struct arguments arguments = {0};
 
+    ensure_std_fds();
+
     /* Defaults */
     arguments.log_level = ZCK_LOG_INFO;
 
